@@ -677,38 +677,38 @@ def o_moment(case):
 def subchecks(tier):
     S = SubCheck
     return [
-        S("mode_dot/matrix", _mode_dot_case("matrix"), o_mode_dot, quick=700, thorough=6000),
-        S("mode_dot/matrix_transpose", _mode_dot_case("matrix_t"), o_mode_dot, quick=700, thorough=6000),
-        S("mode_dot/vector", _mode_dot_case("vector"), o_mode_dot, quick=700, thorough=6000),
-        S("multi_mode_dot/full_list", _mmd_case("full"), o_mmd, quick=700, thorough=6000),
-        S("multi_mode_dot/ascending_modes_skip", _mmd_case("ascending"), o_mmd, quick=700, thorough=6000),
-        S("multi_mode_dot/unsorted_modes", _mmd_case("unsorted"), o_mmd, quick=700, thorough=6000),
-        S("multi_mode_dot/all_vectors", _mmd_case("all_vectors"), o_mmd, quick=500, thorough=4000),
-        S("multi_mode_dot/transpose_complex_vector", _mmd_tcv_case(), o_mmd_tcv, quick=400, thorough=3000),
-        S("kronecker/plain_reverse", _kron_case(False), o_kron, quick=600, thorough=5000),
-        S("kronecker/skip_matrix", _kron_case(True), o_kron, quick=600, thorough=5000),
-        S("khatri_rao/plain", _kr_case((2, 4), False, False, False), o_kr, quick=600, thorough=5000),
-        S("khatri_rao/weights", _kr_case((2, 4), True, False, False), o_kr, quick=600, thorough=5000),
-        S("khatri_rao/mask", _kr_case((2, 3), None, True, False), o_kr, quick=600, thorough=5000),
-        S("khatri_rao/skip_matrix", _kr_case((2, 3), None, None, True), o_kr, quick=600, thorough=5000),
-        S("khatri_rao/single_matrix_plain", _kr_case((1, 1), False, False, None), o_kr, quick=400, thorough=3000),
-        S("khatri_rao/single_matrix_weighted", _kr_case((1, 1), "one_of", None, None), o_kr, quick=600, thorough=5000),
-        S("inner/full", _inner_case("full"), o_inner, quick=600, thorough=5000),
-        S("inner/n_modes", _inner_case("n_modes"), o_inner, quick=700, thorough=6000),
-        S("inner/n_modes_zero", _inner_case("zero"), o_inner, quick=400, thorough=3000),
-        S("inner/reject_mismatch", _inner_bad_case(), o_inner_bad, quick=500, thorough=4000),
-        S("outer", _outer_case(False), o_outer, quick=600, thorough=5000),
-        S("batched_outer", _outer_case(True), o_batched_outer, quick=600, thorough=5000),
-        S("tensordot/int_modes", _td_case("int"), o_td, quick=600, thorough=5000),
-        S("tensordot/pair_modes", _td_case("pair"), o_td, quick=700, thorough=6000),
-        S("tensordot/batched", _td_case("batched"), o_td, quick=700, thorough=6000),
-        S("tensordot/batched_unsorted", _td_case("batched_unsorted"), o_td, quick=500, thorough=4000),
-        S("mttkrp/default", _mttkrp_case((3, 4), None), o_mttkrp, quick=700, thorough=6000),
-        S("mttkrp/order2_unweighted", _mttkrp_case((2, 2), False), o_mttkrp, quick=400, thorough=3000),
-        S("mttkrp/order2_weighted", _mttkrp_case((2, 2), True), o_mttkrp, quick=600, thorough=5000),
-        S("mttkrp/memory", _mttkrp_case((2, 4), None), o_mttkrp_memory, quick=700, thorough=6000),
-        S("sample_khatri_rao/given_indices", _skr_case(True), o_skr, quick=600, thorough=5000),
-        S("sample_khatri_rao/seeded", _skr_case(False), o_skr, quick=500, thorough=4000),
-        S("higher_order_moment/matrix", _moment_case(1), o_moment, quick=500, thorough=4000),
-        S("higher_order_moment/tensor", _moment_case(2), o_moment, quick=500, thorough=4000),
+        S("mode_dot/matrix", _mode_dot_case("matrix"), o_mode_dot, quick=500, thorough=6000),
+        S("mode_dot/matrix_transpose", _mode_dot_case("matrix_t"), o_mode_dot, quick=500, thorough=6000),
+        S("mode_dot/vector", _mode_dot_case("vector"), o_mode_dot, quick=500, thorough=6000),
+        S("multi_mode_dot/full_list", _mmd_case("full"), o_mmd, quick=500, thorough=6000),
+        S("multi_mode_dot/ascending_modes_skip", _mmd_case("ascending"), o_mmd, quick=500, thorough=6000),
+        S("multi_mode_dot/unsorted_modes", _mmd_case("unsorted"), o_mmd, quick=500, thorough=6000),
+        S("multi_mode_dot/all_vectors", _mmd_case("all_vectors"), o_mmd, quick=350, thorough=4000),
+        S("multi_mode_dot/transpose_complex_vector", _mmd_tcv_case(), o_mmd_tcv, quick=250, thorough=3000),
+        S("kronecker/plain_reverse", _kron_case(False), o_kron, quick=400, thorough=5000),
+        S("kronecker/skip_matrix", _kron_case(True), o_kron, quick=400, thorough=5000),
+        S("khatri_rao/plain", _kr_case((2, 4), False, False, False), o_kr, quick=400, thorough=5000),
+        S("khatri_rao/weights", _kr_case((2, 4), True, False, False), o_kr, quick=400, thorough=5000),
+        S("khatri_rao/mask", _kr_case((2, 3), None, True, False), o_kr, quick=400, thorough=5000),
+        S("khatri_rao/skip_matrix", _kr_case((2, 3), None, None, True), o_kr, quick=400, thorough=5000),
+        S("khatri_rao/single_matrix_plain", _kr_case((1, 1), False, False, None), o_kr, quick=250, thorough=3000),
+        S("khatri_rao/single_matrix_weighted", _kr_case((1, 1), "one_of", None, None), o_kr, quick=400, thorough=5000),
+        S("inner/full", _inner_case("full"), o_inner, quick=400, thorough=5000),
+        S("inner/n_modes", _inner_case("n_modes"), o_inner, quick=500, thorough=6000),
+        S("inner/n_modes_zero", _inner_case("zero"), o_inner, quick=250, thorough=3000),
+        S("inner/reject_mismatch", _inner_bad_case(), o_inner_bad, quick=350, thorough=4000),
+        S("outer", _outer_case(False), o_outer, quick=400, thorough=5000),
+        S("batched_outer", _outer_case(True), o_batched_outer, quick=400, thorough=5000),
+        S("tensordot/int_modes", _td_case("int"), o_td, quick=400, thorough=5000),
+        S("tensordot/pair_modes", _td_case("pair"), o_td, quick=500, thorough=6000),
+        S("tensordot/batched", _td_case("batched"), o_td, quick=500, thorough=6000),
+        S("tensordot/batched_unsorted", _td_case("batched_unsorted"), o_td, quick=350, thorough=4000),
+        S("mttkrp/default", _mttkrp_case((3, 4), None), o_mttkrp, quick=500, thorough=6000),
+        S("mttkrp/order2_unweighted", _mttkrp_case((2, 2), False), o_mttkrp, quick=250, thorough=3000),
+        S("mttkrp/order2_weighted", _mttkrp_case((2, 2), True), o_mttkrp, quick=400, thorough=5000),
+        S("mttkrp/memory", _mttkrp_case((2, 4), None), o_mttkrp_memory, quick=500, thorough=6000),
+        S("sample_khatri_rao/given_indices", _skr_case(True), o_skr, quick=400, thorough=5000),
+        S("sample_khatri_rao/seeded", _skr_case(False), o_skr, quick=350, thorough=4000),
+        S("higher_order_moment/matrix", _moment_case(1), o_moment, quick=350, thorough=4000),
+        S("higher_order_moment/tensor", _moment_case(2), o_moment, quick=350, thorough=4000),
     ]
